@@ -83,6 +83,11 @@ pub struct PipeOpts<'a> {
     pub creds: &'a [Creds],
     /// offsets budget for the raw-attribute sweep
     pub sweep: usize,
+    /// other deliveries of the same batch: a receiver that parses a whole batch of datagrams before
+    /// it inspects any of them has these parsed *between* the parse of `buf` and the read-only
+    /// operations on it (whatever the decoder remembers from its last call is then about another
+    /// message)
+    pub interleave: &'a [Vec<u8>],
 }
 
 fn lib_class(c: MessageClass) -> u8 {
@@ -221,6 +226,44 @@ pub fn compare_view(buf: &[u8], msg: &Message, view: &RefView, check_prop: &str)
         }
         return Err(Violation::new("C10", "exposure", &tail_shape(view), msg));
     }
+    // the same exposure however the iterator is driven (nth / skip / step_by / last / count)
+    {
+        let n = want.len();
+        let (bp, bc) = if view.first_integrity.is_none() { ("C02", "attribute_sequence") } else { ("C10", "exposure") };
+        let bad = |how: String| Violation::new(bp, bc, &tail_shape(view), format!("iter_attributes driven with {how} does not yield the exposed sequence that plain iteration yields ({})", tail_shape(view)));
+        if msg.iter_attributes().count() != n {
+            return Err(bad("count()".into()));
+        }
+        if msg.iter_attributes().last().map(|a| a.get_type().value()) != want.last().map(|w| w.0) {
+            return Err(bad("last()".into()));
+        }
+        for k in 1..=n.min(6) {
+            let got_k: Vec<u16> = msg.iter_attributes().skip(k).map(|a| a.get_type().value()).collect();
+            let want_k: Vec<u16> = want[k..].iter().map(|w| w.0).collect();
+            if got_k != want_k {
+                return Err(bad(format!("skip({k})")));
+            }
+            if msg.iter_attributes().nth(k).map(|a| a.get_type().value()) != want.get(k).map(|w| w.0) {
+                return Err(bad(format!("nth({k})")));
+            }
+        }
+        // from the end as well: skipping to just before each of the last three positions
+        for back in 1..=n.min(3) {
+            let k = n - back;
+            let got_k: Vec<u16> = msg.iter_attributes().skip(k).map(|a| a.get_type().value()).collect();
+            let want_k: Vec<u16> = want[k..].iter().map(|w| w.0).collect();
+            if got_k != want_k {
+                return Err(bad(format!("skip({k})")));
+            }
+        }
+        for step in [2usize, 3] {
+            let got_s: Vec<u16> = msg.iter_attributes().step_by(step).map(|a| a.get_type().value()).collect();
+            let want_s: Vec<u16> = want.iter().step_by(step).map(|w| w.0).collect();
+            if got_s != want_s {
+                return Err(bad(format!("step_by({step})")));
+            }
+        }
+    }
     // lookups: first match in the exposed list; absent types are absent
     let mut types: Vec<u16> = want.iter().map(|w| w.0).collect();
     types.extend_from_slice(&[MI, MI256, FP, 0x8022, 0x0006, 0x7f00]);
@@ -290,6 +333,13 @@ pub fn receive(ctx: &mut Ctx, buf: &[u8], o: &PipeOpts) -> ScResult {
                 let slice = &buf[buf.len() - back..];
                 let _ = g("RawAttribute::from_bytes", || RawAttribute::from_bytes(slice).is_ok())?;
             }
+        }
+    }
+    if !o.interleave.is_empty() {
+        ctx.st.inc("probe.other_messages_parsed_before_inspection");
+        for other in o.interleave {
+            let _ = g("Message::from_bytes", || Message::from_bytes(other).map(|m| m.transaction_id()).is_ok())?;
+            let _ = g("MessageHeader::from_bytes", || MessageHeader::from_bytes(other).is_ok())?;
         }
     }
     let refv = if o.oracle { Some(refcodec::decode(buf)) } else { None };
